@@ -371,7 +371,7 @@ impl Prop for C05 {
     fn runs(&self, tier: Tier) -> u64 {
         match tier {
             Tier::Quick => 400_000,
-            Tier::Thorough => 3_000_000,
+            Tier::Thorough => 30_000_000,
         }
     }
     fn gen(&self, rng: &mut Rng, tier: Tier, _idx: u64) -> Case {
